@@ -373,7 +373,8 @@ func lifecycleOracleOn(c *Ctx, evs []vh.Event, cfgExtensions []string) {
 			posted, nexted := false, false
 			var postSeq int64
 			for _, cl := range calls {
-				if (cl.op == "response" || cl.op == "error") && cl.id == curReq && cl.callSeq < e.Seq {
+				// the FIRST submission for this id counts (later ones are duplicates the platform refuses)
+				if (cl.op == "response" || cl.op == "error") && cl.id == curReq && cl.callSeq < e.Seq && !posted {
 					posted = true
 					postSeq = cl.callSeq
 				}
